@@ -228,8 +228,52 @@ def shared_table_not_iterated(R, rule):
         R.ok(rule, R.site(dd.module, dd.node), "the shared table of tasks in flight is only accessed by key")
 
 
+def deferred_callbacks_and_tls(R, rule):
+    """A callback handed to weakref.finalize / weakref.ref / atexit.register runs later, on whichever thread happens to drop the last
+    reference (or at interpreter exit) - not on the thread that registered it.  If it reads a threading.local holder it sees that
+    other thread's state: it acts on the wrong thread's batches, tasks or scheduler."""
+    repo = R.repo
+    n = 0
+    for mname, m in sorted(repo.modules.items()):
+        if mname.startswith("tests"):
+            continue
+        tls = set()
+        for targets, value, node in repo.module_assigns(m):
+            if isinstance(value, ast.Call):
+                r = repo.resolve_dotted(m, q.call_name(value) or "")
+                if r and r[0] == "class" and "threading.local" in r[1].ext_bases():
+                    tls.update(targets)
+        for f in m.all_functions.values():
+            for c in q.calls(f.node):
+                nm = q.call_name(c) or ""
+                cb = None
+                if nm in ("weakref.finalize", "finalize") and len(c.args) >= 2:
+                    cb = c.args[1]
+                elif nm in ("weakref.ref", "weakref.proxy") and len(c.args) >= 2:
+                    cb = c.args[1]
+                elif nm in ("atexit.register",) and c.args:
+                    cb = c.args[0]
+                if cb is None:
+                    continue
+                n += 1
+                body = None
+                if isinstance(cb, ast.Lambda):
+                    body = cb
+                elif isinstance(cb, ast.Name):
+                    tgt = m.functions.get(cb.id) or (f.nested.get(cb.id) if hasattr(f, "nested") else None) or (f.parent.nested.get(cb.id) if f.parent is not None else None)
+                    body = tgt.node if tgt is not None else None
+                reads = sorted(set(x.id for x in ast.walk(body) if isinstance(x, ast.Name) and x.id in tls)) if body is not None else []
+                R.check(not reads, rule, "%s:callback:%s" % (f.qualname, q.src(cb)[:30]), R.site(f, c),
+                        "the deferred callback `%s` reads no thread-local holder" % q.src(cb)[:30],
+                        "the callback `%s` registered by %s runs on whichever thread drops the last reference, and reads the thread-local holder %s there: it "
+                        "acts on that thread's state (cancels its pending batches, ...) instead of the registering thread's" % (q.src(cb)[:30], f.qualname, ", ".join(reads)))
+    if not n:
+        R.ok(rule, "asynq/", "no deferred callback (weakref / atexit) is registered")
+
+
 def run(R):
     R.extra["explanation"] = EXPLANATION
+    deferred_callbacks_and_tls(R, "C16.STATE")
     ro = Roles(R)
     repo = R.repo
     shared_default_objects(R, "C16.STATE")
